@@ -85,7 +85,8 @@ def describe(op, specs, args):
 def check_op(op, specs, args, stats, enum=False, down=False):
     from sigtools import signatures
     stats.case()
-    sigs = [realfn.sig_of(s, 'f%d' % i) for i, s in enumerate(specs)]
+    # annotations spelled with T9 / Missing9 are postponed ones that cannot be evaluated (TypeError, AttributeError, NameError)
+    sigs = [realfn.sig_of(s, 'f%d' % i, future=any(p.ann and ('T9' in p.ann or 'Missing9' in p.ann) for p in s)) for i, s in enumerate(specs)]
     case = {'op': op, 'specs': [list(map(list, s)) for s in specs], 'args': args, 'downgraded': down}
     desc = describe(op, specs, args)
     r, exc = apply_op(op, sigs, args)
@@ -157,10 +158,11 @@ def shard_merge(arg):
     _init()
     st = Stats()
     c = 0
-    for i in idxs:
-        for b in _U2:
-            c += 1
-            check_op('merge', (_U2[i], b), {}, st, True, down=(c % downstride == 0))
+    n = len(_U2)
+    for x in idxs:
+        i, j = divmod(x, n)
+        c += 1
+        check_op('merge', (_U2[i], _U2[j]), {}, st, True, down=(c % downstride == 0))
     return st
 
 
@@ -169,11 +171,12 @@ def shard_embed(arg):
     _init()
     st = Stats()
     c = 0
-    for i in idxs:
-        for si in _INN:
-            for uva, uvk in FLAGS2:
-                c += 1
-                check_op('embed', (_OUT[i], si), {'use_varargs': uva, 'use_varkwargs': uvk}, st, True, down=(c % downstride == 0))
+    n = len(_INN)
+    for x in idxs:
+        i, j = divmod(x, n)
+        for uva, uvk in FLAGS2:
+            c += 1
+            check_op('embed', (_OUT[i], _INN[j]), {'use_varargs': uva, 'use_varkwargs': uvk}, st, True, down=(c % downstride == 0))
     return st
 
 
@@ -304,7 +307,8 @@ def st_case():
     from hypothesis import strategies as st
     # annotated half of the time: plain inputs carry annotations without an upgraded counterpart
     spec = st.one_of(universe.st_spec(HN, 5, ('args', 'p'), ('kwargs', 'k')),
-                     universe.st_spec(HN, 4, ('args', 'p'), ('kwargs', 'k'), ann_exprs=("'A1'", "'A2'")))
+                     universe.st_spec(HN, 4, ('args', 'p'), ('kwargs', 'k'), ann_exprs=("'A1'", "'A2'")),
+                     universe.st_spec(HN[:3], 3, ('args', 'p'), ('kwargs', 'k'), ann_exprs=('T9[int]', 'T9.only_in_stubs', 'Missing9')))
 
     @st.composite
     def build(draw):
@@ -345,9 +349,10 @@ def run(ctx):
     _init()
     total = Stats()
     ds = 4
-    idx = ctx.stride(list(range(len(_U2))), ctx.pick(0.04, 1.0))
+    # (the quick tier samples the pair spaces evenly rather than taking every partner of a few left-hand sides)
+    idx = ctx.stride(range(len(_U2) ** 2), ctx.pick(0.04, 1.0))
     total.merge(ctx.pmap(shard_merge, [(idx[i::64], ds) for i in range(64) if idx[i::64]]))
-    idx = ctx.stride(list(range(len(_OUT))), ctx.pick(0.05, 1.0))
+    idx = ctx.stride(range(len(_OUT) * len(_INN)), ctx.pick(0.05, 1.0))
     total.merge(ctx.pmap(shard_embed, [(idx[i::64], ds) for i in range(64) if idx[i::64]]))
     specs = ctx.stride(_U3, ctx.pick(0.02, 0.5))
     total.merge(ctx.pmap(shard_mask, [(specs[i::128], ds * 4) for i in range(128) if specs[i::128]]))
